@@ -215,8 +215,11 @@ func (c *vfConc) login(b *vfConcBrowser, target string) bool {
 	return true
 }
 
-func vfNewConc(t *testing.T, grace int) *vfConc {
-	w := vfNewWorld(t, vfWorldCfg{PKCE: true, EndSession: true, GraceSec: grace}, 0, vfNewRand(vfSeed()).fork(5))
+func vfNewConc(t *testing.T, grace int) *vfConc { return vfNewConcRate(t, grace, 0) }
+
+// rateLimit 0: effectively unlimited (the stress phases are not about the limiter); otherwise the configured verifications per second
+func vfNewConcRate(t *testing.T, grace, rateLimit int) *vfConc {
+	w := vfNewWorld(t, vfWorldCfg{PKCE: true, EndSession: true, GraceSec: grace, RateLimit: rateLimit}, 0, vfNewRand(vfSeed()).fork(5))
 	down := &vfConcDown{seen: map[string]http.Header{}}
 	h, err := New(context.Background(), down, w.config(vfKeyA), "vf-conc")
 	if err != nil {
@@ -419,11 +422,51 @@ func TestVF_Concurrent(t *testing.T) {
 		c4.violate("deadlock: browsers did not finish (token endpoint behind redirects)")
 	}
 	c4.w.close()
+	// ---- (5) the DEFAULT verification rate limit (100 per second): twelve browsers complete their logins at the same moment --
+	// far below the limit; each of them gets the answer it would get alone
+	c5 := vfNewConcRate(t, 60, 100)
+	var wg5 sync.WaitGroup
+	start5 := make(chan struct{})
+	for i := 0; i < 12; i++ {
+		wg5.Add(1)
+		go func(i int) {
+			defer wg5.Done()
+			b := &vfConcBrowser{email: fmt.Sprintf("burst%d@example.com", i), jar: map[string]string{}}
+			rec := c5.get(b, fmt.Sprintf("/b%d/start", i))
+			loc := rec.Header().Get("Location")
+			u, err := url.Parse(loc)
+			if rec.Code != 302 || err != nil {
+				c5.violate("%s: no login redirect (status %d)", b.email, rec.Code)
+				return
+			}
+			q := u.Query()
+			code := c5.w.prov.authorizeAs(b.email, q.Get("nonce"), q.Get("code_challenge"), q.Get("redirect_uri"))
+			<-start5
+			cb := c5.get(b, vfCallbackPath+"?"+url.Values{"state": {q.Get("state")}, "code": {code}}.Encode())
+			if cb.Code != 302 {
+				c5.violate("%s: one of twelve simultaneous logins (verification limit 100 per second) was answered %d instead of completing", b.email, cb.Code)
+				return
+			}
+			if r := c5.get(b, fmt.Sprintf("/b%d/page", i)); r.Code != 200 {
+				c5.violate("%s: request after a simultaneous login answered %d", b.email, r.Code)
+			}
+		}(i)
+	}
+	time.Sleep(300 * time.Millisecond)
+	close(start5)
+	fin5 := make(chan struct{})
+	go func() { wg5.Wait(); close(fin5) }()
+	select {
+	case <-fin5:
+	case <-time.After(40 * time.Second):
+		c5.violate("deadlock: simultaneous logins did not finish")
+	}
+	c5.w.close()
 	res["txn_redirect_requests"] = atomic.LoadInt64(&c4.nreq)
 	res["jwks_refetch_rounds"] = jwksRounds
 	res["stress_requests"] = atomic.LoadInt64(&c2.nreq)
 	res["stress_browsers"] = nb
-	res["violations"] = append(append(append(append([]string{}, c.viol...), c2.viol...), c3.viol...), c4.viol...)
+	res["violations"] = append(append(append(append(append([]string{}, c.viol...), c2.viol...), c3.viol...), c4.viol...), c5.viol...)
 	b, _ := json.Marshal(res)
 	vfWriteJSON(t, "concurrent.json", json.RawMessage(b))
 }
